@@ -101,3 +101,26 @@ Theorem C05_scan_fuel_suffices :
     = scan_with step P f pos.
 Proof. exact scan_fuel_suffices. Qed.
 Print Assumptions C05_scan_fuel_suffices.
+
+(* write ordering: whenever the trace of file operations keeps the barrier
+   (everything written before a footer is synced before the footer is issued —
+   checked on every recorded trace of the real code by the extracted barrier_ok),
+   then in EVERY crash image (any crash point, any subset or tearing of the
+   writes not yet followed by a sync) a footer that is completely on disk has
+   everything written before it completely on disk. *)
+From Moss Require Import Crash CrashFacts.
+Theorem C05_complete_footer_has_its_data :
+  forall (tr : list cop) (p : nat) (present : nat -> bool) (i j : nat),
+    barrier_ok tr = true -> legal_image tr p present ->
+    is_footer_at tr i = true -> present i = true ->
+    (j < i)%nat -> is_write_at tr j = true -> present j = true.
+Proof. exact complete_footer_has_its_data. Qed.
+Print Assumptions C05_complete_footer_has_its_data.
+
+(* ... and without the barrier it fails *)
+Theorem C05_without_barrier_refuted :
+  exists tr p present i j,
+    legal_image tr p present /\ is_footer_at tr i = true /\ present i = true /\
+    (j < i)%nat /\ is_write_at tr j = true /\ present j = false.
+Proof. exact no_barrier_refuted. Qed.
+Print Assumptions C05_without_barrier_refuted.
